@@ -2,6 +2,7 @@
 model's structured tokens, in-memory sessions over the real `ControlSession`, and direct application of a model
 verdict to a twin pool."""
 import ast
+import warnings
 import asyncio
 import inspect
 import io
@@ -184,7 +185,9 @@ def word_bits(tok):
     except Exception:
         f = "0"
     try:
-        ast.literal_eval(tok)
+        with warnings.catch_warnings():
+            warnings.simplefilter("ignore")      # the harness's own look at the token is silent
+            ast.literal_eval(tok)
         lit = "1"
     except Exception:
         lit = "0"
@@ -476,7 +479,9 @@ def hello_line(width):
 # ------------------------------------------------------------------------------------------------ twin
 def _conv_raw(conv, text):
     if conv == "literal":
-        return ast.literal_eval(text)
+        with warnings.catch_warnings():
+            warnings.simplefilter("ignore")      # the twin's own conversion is silent
+            return ast.literal_eval(text)
     if conv == "dotted":
         return resolve_dotted_path(text)
     if conv == "float":
